@@ -19,7 +19,8 @@ For `gen.check` the keys are attributed to the prefixes of the regenerated table
 `init ∘ export` is run on A's store with the extracted rules and compared with B's store (DIFF = the model does not describe what
 the code did), and the round-trip monitors are evaluated on the real stores:
   store_roundtrip:<module>.<prefix>     every key of the prefix answers alike on A and B   (`.params` = parameter subspace)
-  counter_roundtrip:<module>.<counter>  an id counter / length key reads alike on A and B
+  counter_roundtrip:<module>.<counter>.<rule>  an id counter / length key reads alike on A and B (rule = how InitGenesis
+                                        restores it in the regenerated table: stored|maxId|lastId|count|zero|notRestored)
                                         (a `.` separates module and prefix: monitor names become file names in ./check)
   continuation_equal:<op>               a continuation operation has the same outcome / id on both chains
   continuation_equal:balances           all balances agree after the continuation
@@ -126,8 +127,8 @@ def checkModule (st : St) (seq : String) (m : Module) (byte : String) : List Str
     let eq := samePrefix a b p
     let modelEq := samePrefix pred b p
     let unspecified := (unspecifiedOf m).contains p || p.startsWith "?"
-    let kind := if isCounterPfx m p then "counter_roundtrip" else "store_roundtrip"
-    (if eq then [] else [s!"MON\t{seq}\t{kind}:{m.name}.{p}\tkeysA={countPfx a p}\tkeysB={countPfx b p}"]) ++
+    let name := if isCounterPfx m p then s!"counter_roundtrip:{m.name}.{counterTag m p}" else s!"store_roundtrip:{m.name}.{p}"
+    (if eq then [] else [s!"MON\t{seq}\t{name}\tkeysA={countPfx a p}\tkeysB={countPfx b p}"]) ++
     (if modelEq || unspecified then [] else
       [s!"DIFF\t{seq}\t{m.name}/{p}\tmodel init(export A) has {countPfx pred p} keys, re-imported store has {countPfx b p}, and they do not answer alike"]) ++
     (if p.startsWith "?" then [s!"DIFF\t{seq}\t{m.name}/{p}\tkey outside every declared prefix of the regenerated table"] else [])
